@@ -5,7 +5,7 @@ import glob
 import shutil
 import time
 
-from .common import (CACHE, EDRV, REPO, CheckError, hash_files, log, nightly_sysroot, repo_hash, sh,
+from .common import (CACHE, EDRV, REPO, CheckError, aux_hash, hash_files, log, nightly_sysroot, repo_hash, sh,
                      walk_files)
 
 TARGET = os.path.join(CACHE, "target")
@@ -68,7 +68,7 @@ def run_driver(crate_dir, crate_name, mode="wit", features=(), cfgs=(), cargo_ar
     key = hash_files([])  # placeholder to keep type
     import hashlib
     h = hashlib.sha256()
-    for part in (repo_hash(), _crate_hash(crate_dir), _edrv_hash(), mode, ",".join(features),
+    for part in (repo_hash(), aux_hash(), _crate_hash(crate_dir), _edrv_hash(), mode, ",".join(features),
                  " ".join(cfgs), " ".join(cargo_args), " ".join(pkg_args), crate_name):
         h.update(part.encode())
         h.update(b"|")
